@@ -23,3 +23,19 @@ pub(crate) use kzg10::Commitment;
 pub use kzg10::PublicParameters;
 #[cfg(feature = "alloc")]
 pub(crate) use kzg10::{CommitKey, OpeningKey};
+
+#[cfg(feature = "verif")]
+pub use kzg10::{CommitKey as VerifCommitKey, OpeningKey as VerifOpeningKey};
+
+#[cfg(feature = "verif")]
+pub(crate) fn verif_kzg_proof(
+    witness: dusk_bls12_381::G1Affine,
+    evaluation: dusk_bls12_381::BlsScalar,
+    polynomial: dusk_bls12_381::G1Affine,
+) -> kzg10::proof::Proof {
+    kzg10::proof::Proof {
+        commitment_to_witness: Commitment(witness),
+        evaluated_point: evaluation,
+        commitment_to_polynomial: Commitment(polynomial),
+    }
+}
